@@ -1,49 +1,94 @@
 /-
-Lemmas for C07, second invariant: the value stack never shrinks below its length at the entry.
+Lemmas for C07, second invariant: lower bounds, and the builder counts of the entry's barrier frame.
 
-While a bracket through a Koto callee is running, every frame above the caller's frames has
-`register_base ≥ r0` (`r0` = `registers.len()` at the entry, given that the entry's own window does
-not wrap the `u8` numbering), so every `truncate_registers` / `resize` executed inside — including
-those of nested entries whose result register *did* wrap — keeps at least `r0` registers. Together
-with `Lemmas/C07.lean` (`regs ≤ r0` at the exit) this gives `regs = r0`.
+While a bracket through a Koto callee is running,
+* every frame above the caller's frames has `register_base ≥ r0` (`r0` = `registers.len()` at the
+  entry, given that the entry's own window does not wrap the `u8` numbering), so every
+  `truncate_registers` / `resize` executed inside — including those of nested entries whose result
+  register *did* wrap — keeps at least `r0` registers;
+* the bottom-most of those frames (the entry's barrier frame) carries the builder counts of the
+  entry (`q`, `t`), so when it is popped — on `Return`, or by the entry's epilogue after an error —
+  `pop_frame` truncates the builder stacks to at most those counts (fix 97373d1);
+* every frame and catch point above the caller's frames records builder counts `≥ ql, tl`, and the
+  builder stacks hold at least `ql, tl` entries, provided no `SequenceToList`/`StringFinish` event is
+  executed at depth `≤ ql, tl` (`SafeEv`; trivially true for `ql = tl = 0`).
+Together with `Lemmas/C07.lean` (`regs ≤ r0` at the exit) this gives `regs = r0`, `seq ≤ q`,
+`str ≤ t`, and with `ql = q`, `tl = t` equality for the builders as well.
 -/
 import KotoVerif.Model.Unwind
 import KotoVerif.Lemmas.C07
 
 namespace KotoVerif.Unwind
 
-/-- all frames of `fs` above the bottom part `S` have base ≥ `r0` -/
-def GeAbove (r0 : Nat) (S fs : List Frame) : Prop :=
-  ∀ X, fs = X ++ S → ∀ f ∈ X, r0 ≤ f.base
+/-- bounds of one bracket: registers / sequence builders / string builders at the entry (`r0 q t`)
+and the lower bounds claimed for the builder stacks inside (`ql tl`: `0 0` or `q t`) -/
+structure Bnd where
+  r0 : Nat
+  q : Nat
+  t : Nat
+  ql : Nat
+  tl : Nat
 
-theorem GeAbove_suffix (r0 : Nat) (S fs fs' : List Frame) (hs : fs' <:+ fs)
-    (h : GeAbove r0 S fs) : GeAbove r0 S fs' := by
-  intro X' hX' f hf
+def FrameOk (B : Bnd) (f : Frame) : Prop :=
+  B.r0 ≤ f.base ∧ B.ql ≤ f.seq0 ∧ B.tl ≤ f.str0 ∧
+  ∀ c ∈ f.catches, B.ql ≤ c.2.2.1 ∧ B.tl ≤ c.2.2.2
+
+/-- all frames of `fs` above the bottom part `S` are `FrameOk`, and the lowest of them carries the
+entry's builder counts -/
+def GeAbove (B : Bnd) (S fs : List Frame) : Prop :=
+  ∀ X, fs = X ++ S → (∀ f ∈ X, FrameOk B f) ∧
+    (∀ b, X.getLast? = some b → b.seq0 = B.q ∧ b.str0 = B.t)
+
+theorem GeAbove_suffix (B : Bnd) (S fs fs' : List Frame) (hs : fs' <:+ fs)
+    (h : GeAbove B S fs) : GeAbove B S fs' := by
+  intro X' hX'
   obtain ⟨t, ht⟩ := hs
-  have : fs = (t ++ X') ++ S := by rw [← ht, hX', List.append_assoc]
-  exact h (t ++ X') this f (List.mem_append_right t hf)
+  have hfs : fs = (t ++ X') ++ S := by rw [← ht, hX', List.append_assoc]
+  have := h (t ++ X') hfs
+  refine ⟨fun f hf => this.1 f (List.mem_append_right t hf), fun b hb => ?_⟩
+  apply this.2 b
+  rw [List.getLast?_append, hb]; rfl
 
-theorem GeAbove_cons (r0 : Nat) (S fs : List Frame) (g : Frame) (X : List Frame) (hfs : fs = X ++ S)
-    (hg : r0 ≤ g.base) (h : GeAbove r0 S fs) : GeAbove r0 S (g :: fs) := by
-  intro X' hX' f hf
+theorem GeAbove_cons (B : Bnd) (S fs : List Frame) (g : Frame) (X : List Frame) (hfs : fs = X ++ S)
+    (hg : FrameOk B g) (hbot : X = [] → g.seq0 = B.q ∧ g.str0 = B.t)
+    (h : GeAbove B S fs) : GeAbove B S (g :: fs) := by
+  intro X' hX'
   have h1 : (g :: X) ++ S = X' ++ S := by rw [← hX', hfs]; rfl
   have h2 : g :: X = X' := List.append_cancel_right h1
-  rw [← h2] at hf
-  cases List.mem_cons.mp hf with
-  | inl h' => rw [h']; exact hg
-  | inr h' => exact h X hfs f h'
+  have hold := h X hfs
+  rw [← h2]
+  refine ⟨fun f hf => ?_, fun b hb => ?_⟩
+  · cases List.mem_cons.mp hf with
+    | inl h' => rw [h']; exact hg
+    | inr h' => exact hold.1 f h'
+  · cases X with
+    | nil =>
+      have : g = b := by simpa using hb
+      rw [← this]; exact hbot rfl
+    | cons y ys =>
+      exact hold.2 b (by simpa [List.getLast?_cons_cons] using hb)
 
-theorem GeAbove_modTop (r0 : Nat) (S rest : List Frame) (f f' : Frame) (hb : f'.base = f.base)
-    (h : GeAbove r0 S (f :: rest)) : GeAbove r0 S (f' :: rest) := by
-  intro X' hX' g hg
+theorem GeAbove_modTop (B : Bnd) (S rest : List Frame) (f f' : Frame)
+    (hok : FrameOk B f → FrameOk B f') (hq : f'.seq0 = f.seq0) (ht : f'.str0 = f.str0)
+    (h : GeAbove B S (f :: rest)) : GeAbove B S (f' :: rest) := by
+  intro X' hX'
   cases X' with
-  | nil => simp at hg
+  | nil => exact ⟨fun g hg => by simp at hg, fun b hb => by simp at hb⟩
   | cons y ys =>
     have hy : f' = y ∧ rest = ys ++ S := by simpa using hX'
-    have : f :: rest = (f :: ys) ++ S := by rw [hy.2]; rfl
-    cases List.mem_cons.mp hg with
-    | inl h' => rw [h', ← hy.1, hb]; exact h (f :: ys) this f (by simp)
-    | inr h' => exact h (f :: ys) this g (List.mem_cons_of_mem _ h')
+    have hfs : f :: rest = (f :: ys) ++ S := by rw [hy.2]; rfl
+    have hold := h (f :: ys) hfs
+    refine ⟨fun g hg => ?_, fun b hb => ?_⟩
+    · cases List.mem_cons.mp hg with
+      | inl h' => rw [h', ← hy.1]; exact hok (hold.1 f (by simp))
+      | inr h' => exact hold.1 g (List.mem_cons_of_mem _ h')
+    · cases ys with
+      | nil =>
+        have : y = b := by simpa using hb
+        rw [← this, ← hy.1, hq, ht]
+        exact hold.2 f (by simp)
+      | cons z zs =>
+        exact hold.2 b (by simpa [List.getLast?_cons_cons] using hb)
 
 theorem dropLoop_split : ∀ (fs R : List Frame), dropLoop fs = some R →
     ∃ X, fs = X ++ R ∧ X ≠ [] := by
@@ -101,32 +146,51 @@ theorem hasLoop_of_getLast : ∀ (Y : List Cont) (x : Exit), Y.getLast? = some (
       cases c <;> simp [hasLoop, this]
 
 /-- inside the bracket the current frame lies above the caller's frames -/
-theorem topGe (r0 : Nat) (Y : List Cont) (fs S : List Frame) (hp : peelAll Y fs = some S)
-    (hl : hasLoop Y = true) (hg : GeAbove r0 S fs) : r0 ≤ topBase fs := by
+theorem topOk (B : Bnd) (Y : List Cont) (fs S : List Frame) (hp : peelAll Y fs = some S)
+    (hl : hasLoop Y = true) (hg : GeAbove B S fs) :
+    ∃ f rest, fs = f :: rest ∧ FrameOk B f := by
   obtain ⟨X, hX, hne⟩ := peelAll_split Y fs S hp
   cases X with
   | nil => exact absurd rfl (hne hl)
-  | cons f X1 =>
-    rw [hX]
-    exact hg (f :: X1) hX f (by simp)
+  | cons f X1 => exact ⟨f, X1 ++ S, hX, (hg (f :: X1) hX).1 f (by simp)⟩
 
-/-! ### unwinding keeps at least `r0` registers -/
+theorem topGe (B : Bnd) (Y : List Cont) (fs S : List Frame) (hp : peelAll Y fs = some S)
+    (hl : hasLoop Y = true) (hg : GeAbove B S fs) : B.r0 ≤ topBase fs := by
+  obtain ⟨f, rest, hfs, hok⟩ := topOk B Y fs S hp hl hg
+  rw [hfs]; exact hok.1
 
-theorem unwindGo_low (c : Bool) (r0 : Nat) : ∀ (fs : List Frame) (vm : VM) (R : List Frame),
-    vm.stack = fs → dropLoop fs = some R → (∀ X, fs = X ++ R → ∀ f ∈ X, r0 ≤ f.base) →
-    r0 ≤ vm.regs →
-    r0 ≤ (unwindGo c fs vm).1.regs ∧ (unwindGo c fs vm).1.stack <:+ fs := by
+/-! ### unwinding keeps the lower bounds -/
+
+theorem unwindGo_low (c : Bool) (B : Bnd) : ∀ (fs : List Frame) (vm : VM) (R : List Frame),
+    vm.stack = fs → dropLoop fs = some R → (∀ X, fs = X ++ R → ∀ f ∈ X, FrameOk B f) →
+    B.r0 ≤ vm.regs → B.ql ≤ vm.seq → B.tl ≤ vm.str →
+    B.r0 ≤ (unwindGo c fs vm).1.regs ∧ (unwindGo c fs vm).1.stack <:+ fs ∧
+    B.ql ≤ (unwindGo c fs vm).1.seq ∧ B.tl ≤ (unwindGo c fs vm).1.str := by
   intro fs
   induction fs with
   | nil => intro vm R _ h; simp [dropLoop] at h
   | cons f rest ih =>
-    intro vm R hs hd hge hr
+    intro vm R hs hd hge hr hq ht
+    obtain ⟨X0, hX0, hne0⟩ := dropLoop_split (f :: rest) R hd
+    have hfok : FrameOk B f := by
+      cases X0 with
+      | nil => exact absurd rfl hne0
+      | cons y ys =>
+        have hy : f = y := by
+          have : f :: rest = y :: (ys ++ R) := by simpa using hX0
+          exact (List.cons.inj this).1
+        rw [hy]; exact hge (y :: ys) hX0 y (by simp)
     unfold unwindGo
     split
-    · exact ⟨hr, by rw [hs]; exact List.suffix_refl _⟩
+    · -- caught: the builders opened in the try block are discarded
+      rename_i cc _ hcat
+      have hc := hfok.2.2.2 cc (by rw [hcat]; simp)
+      refine ⟨hr, by simp [hs], ?_, ?_⟩
+      · simp only []; exact Nat.le_min.mpr ⟨hq, hc.1⟩
+      · simp only []; exact Nat.le_min.mpr ⟨ht, hc.2⟩
     · by_cases hbar : f.barrier = true
       · simp only [hbar, if_true]
-        exact ⟨hr, by rw [hs]; exact List.suffix_refl _⟩
+        exact ⟨hr, by rw [hs]; exact List.suffix_refl _, hq, ht⟩
       · have hbar' : f.barrier = false := by simpa using hbar
         simp only [hbar', Bool.false_eq_true, if_false]
         have hd' : dropLoop rest = some R := by simpa [dropLoop, hbar'] using hd
@@ -135,7 +199,7 @@ theorem unwindGo_low (c : Bool) (r0 : Nat) : ∀ (fs : List Frame) (vm : VM) (R 
         | nil => simp [dropLoop] at hd'
         | cons r rs =>
           have hp := popTo_fields f (r :: rs) vm
-          have hrb : r0 ≤ r.base := by
+          have hrb : B.r0 ≤ r.base := by
             cases X1 with
             | nil => exact absurd rfl hne1
             | cons y ys =>
@@ -144,61 +208,88 @@ theorem unwindGo_low (c : Bool) (r0 : Nat) : ∀ (fs : List Frame) (vm : VM) (R 
                 exact (List.cons.inj this).1
               have : f :: r :: rs = (f :: y :: ys) ++ R := by rw [hX1]; rfl
               rw [hy]
-              exact hge (f :: y :: ys) this y (by simp)
-          have hregs : r0 ≤ (popTo f (r :: rs) vm).1.regs := by
+              exact (hge (f :: y :: ys) this y (by simp)).1
+          have hregs : B.r0 ≤ (popTo f (r :: rs) vm).1.regs := by
             simp [popTo, hbar']; omega
-          have hge' : ∀ X, r :: rs = X ++ R → ∀ g ∈ X, r0 ≤ g.base := by
+          have hge' : ∀ X, r :: rs = X ++ R → ∀ g ∈ X, FrameOk B g := by
             intro X hX g hg
             have : f :: r :: rs = (f :: X) ++ R := by rw [hX]; rfl
             exact hge (f :: X) this g (List.mem_cons_of_mem _ hg)
-          have := ih (popTo f (r :: rs) vm).1 R hp.1 hd' hge' hregs
-          exact ⟨this.1, List.IsSuffix.trans this.2 (List.suffix_cons f (r :: rs))⟩
+          have hq' : B.ql ≤ (popTo f (r :: rs) vm).1.seq := by
+            rw [hp.2.2.2.2.1]; exact Nat.le_min.mpr ⟨hq, hfok.2.1⟩
+          have ht' : B.tl ≤ (popTo f (r :: rs) vm).1.str := by
+            rw [hp.2.2.2.2.2.1]; exact Nat.le_min.mpr ⟨ht, hfok.2.2.1⟩
+          have := ih (popTo f (r :: rs) vm).1 R hp.1 hd' hge' hregs hq' ht'
+          exact ⟨this.1, List.IsSuffix.trans this.2.1 (List.suffix_cons f (r :: rs)), this.2.2⟩
 
-/-- What is known about the register count when the bracket's own continuation has been popped. -/
-def DoneR (e : Cont) (r0 : Nat) (vm : VM) : Prop :=
+/-- What is known when the bracket's own continuation has been popped. -/
+def DoneR (e : Cont) (B : Bnd) (vm : VM) : Prop :=
   match e with
-  | .loop (.truncate rr) => min r0 (vm.base + rr) ≤ vm.regs
+  | .loop (.truncate rr) =>
+    min B.r0 (vm.base + rr) ≤ vm.regs ∧ vm.seq ≤ B.q ∧ vm.str ≤ B.t ∧
+    min B.ql B.q ≤ vm.seq ∧ min B.tl B.t ≤ vm.str
   | _ => True
 
-structure Low (r0 : Nat) (e : Cont) (S : List Frame) (st : St) (Y : List Cont) : Prop where
-  regsIn : Y ≠ [] → r0 ≤ st.vm.regs
-  ge : Y ≠ [] → GeAbove r0 S st.vm.stack
-  doneR : Y = [] → DoneR e r0 st.vm
+structure Low (B : Bnd) (e : Cont) (S : List Frame) (st : St) (Y : List Cont) : Prop where
+  regsIn : Y ≠ [] → B.r0 ≤ st.vm.regs
+  seqIn : Y ≠ [] → B.ql ≤ st.vm.seq
+  strIn : Y ≠ [] → B.tl ≤ st.vm.str
+  ge : Y ≠ [] → GeAbove B S st.vm.stack
+  doneR : Y = [] → DoneR e B st.vm
 
 theorem exitErr_regs (x : Exit) (vm : VM) (b : Frame) (R : List Frame) (hs : vm.stack = b :: R)
     (hb : b.barrier = true) :
     (exitErr x vm).regs = (match x with
       | .truncate rr => min vm.regs (topBase R + rr)
-      | .propagate => vm.regs) := by
+      | .propagate => vm.regs) ∧
+    (exitErr x vm).seq = min vm.seq b.seq0 ∧ (exitErr x vm).str = min vm.str b.str0 := by
   have hp := popTo_fields b R vm
   have hst := popTo_stop_of_barrier b R vm hb
   cases x with
   | truncate rr => simp [exitErr, popFrameD, popFrame, hs, truncate, hp, hst]
-  | propagate => simp [exitErr, popFrameD, popFrame, hs, hst]
+  | propagate => simp [exitErr, popFrameD, popFrame, hs, hst, hp]
 
-theorem raiseGo_low (s0 : St) (x0 : Exit) (hs0 : inLoop s0 = false) (r0 : Nat) :
+/-- the exit state of the bracket after its barrier frame `b` (the only frame above `S`) was popped -/
+theorem doneR_of_exit (B : Bnd) (x : Exit) (vm1 : VM) (b : Frame) (S : List Frame)
+    (hstk : vm1.stack = b :: S) (hbb : b.barrier = true) (hg : GeAbove B S vm1.stack)
+    (hr : B.r0 ≤ vm1.regs) (hq : B.ql ≤ vm1.seq) (ht : B.tl ≤ vm1.str) :
+    DoneR (.loop x) B (exitErr x vm1) := by
+  have hx := exitErr_fields x vm1 b S hstk
+  have hxr := exitErr_regs x vm1 b S hstk hbb
+  have hbc := (hg [b] (by rw [hstk]; rfl)).2 b (by simp)
+  cases x with
+  | truncate rr =>
+    simp only [DoneR]
+    rw [hxr.1, hxr.2.1, hxr.2.2, hx.2.1, hbc.1, hbc.2]
+    simp only []
+    refine ⟨by omega, Nat.min_le_right _ _, Nat.min_le_right _ _, ?_, ?_⟩
+    · exact Nat.le_min.mpr ⟨Nat.le_trans (Nat.min_le_left _ _) hq, Nat.min_le_right _ _⟩
+    · exact Nat.le_min.mpr ⟨Nat.le_trans (Nat.min_le_left _ _) ht, Nat.min_le_right _ _⟩
+  | propagate => simp [DoneR]
+
+theorem raiseGo_low (s0 : St) (x0 : Exit) (hs0 : inLoop s0 = false) (B : Bnd) :
     ∀ (Y : List Cont) (c : Bool) (vm : VM),
       peelAll Y vm.stack = some s0.vm.stack → vm.base = topBase vm.stack →
       (Y ≠ [] → Y.getLast? = some (.loop x0)) → Y ≠ [] →
-      r0 ≤ vm.regs → GeAbove r0 s0.vm.stack vm.stack →
+      B.r0 ≤ vm.regs → B.ql ≤ vm.seq → B.tl ≤ vm.str → GeAbove B s0.vm.stack vm.stack →
       ∀ Y', (raiseGo (Y ++ s0.conts) c vm).conts = Y' ++ s0.conts →
-        Low r0 (.loop x0) s0.vm.stack (raiseGo (Y ++ s0.conts) c vm) Y' := by
+        Low B (.loop x0) s0.vm.stack (raiseGo (Y ++ s0.conts) c vm) Y' := by
   intro Y
   induction Y with
   | nil => intro c vm _ _ _ hne; exact absurd rfl hne
   | cons c1 Y1 ih =>
-    intro c vm hp hb hl _ hr hg Y' hY'
+    intro c vm hp hb hl _ hr hq ht hg Y' hY'
     cases c1 with
     | native a b =>
       rw [List.cons_append, raiseGo_notLoop _ _ _ (by simp)] at hY' ⊢
       have : Y' = .native a b :: Y1 := (List.append_cancel_right hY').symm
       subst this
-      exact ⟨fun _ => hr, fun _ => hg, fun h => by simp at h⟩
+      exact ⟨fun _ => hr, fun _ => hq, fun _ => ht, fun _ => hg, fun h => by simp at h⟩
     | importing a b =>
       rw [List.cons_append, raiseGo_notLoop _ _ _ (by simp)] at hY' ⊢
       have : Y' = .importing a b :: Y1 := (List.append_cancel_right hY').symm
       subst this
-      exact ⟨fun _ => hr, fun _ => hg, fun h => by simp at h⟩
+      exact ⟨fun _ => hr, fun _ => hq, fun _ => ht, fun _ => hg, fun h => by simp at h⟩
     | loop x =>
       simp only [peelAll] at hp
       cases hdl : dropLoop vm.stack with
@@ -206,163 +297,172 @@ theorem raiseGo_low (s0 : St) (x0 : Exit) (hs0 : inLoop s0 = false) (r0 : Nat) :
       | some R1 =>
         simp only [hdl, Option.bind_some] at hp
         obtain ⟨X2, hX2, _⟩ := peelAll_split Y1 R1 _ hp
-        have hgeR : ∀ X, vm.stack = X ++ R1 → ∀ f ∈ X, r0 ≤ f.base := by
+        have hgeR : ∀ X, vm.stack = X ++ R1 → ∀ f ∈ X, FrameOk B f := by
           intro X hX f hf
           have : vm.stack = (X ++ X2) ++ s0.vm.stack := by rw [hX, hX2, List.append_assoc]
-          exact hg (X ++ X2) this f (List.mem_append_left X2 hf)
+          exact (hg (X ++ X2) this).1 f (List.mem_append_left X2 hf)
         have hu := unwindGo_spec c vm.stack vm R1 rfl hb hdl
-        have hlow := unwindGo_low c r0 vm.stack vm R1 rfl hdl hgeR hr
+        have hlow := unwindGo_low c B vm.stack vm R1 rfl hdl hgeR hr hq ht
         simp only [] at hu
         have hune : unwind c vm = unwindGo c vm.stack vm := rfl
         rcases hres : unwindGo c vm.stack vm with ⟨vm1, r⟩
         rw [hres] at hu hlow
         simp only [] at hu hlow
-        have hg1 : GeAbove r0 s0.vm.stack vm1.stack := GeAbove_suffix r0 _ _ _ hlow.2 hg
+        have hg1 : GeAbove B s0.vm.stack vm1.stack := GeAbove_suffix B _ _ _ hlow.2.1 hg
         cases r with
         | some cr =>
           rw [List.cons_append, raiseGo_loop_some x _ c vm vm1 cr (by rw [hune, hres])] at hY' ⊢
           have : Y' = .loop x :: Y1 := (List.append_cancel_right hY').symm
           subst this
-          exact ⟨fun _ => hlow.1, fun _ => hg1, fun h => by simp at h⟩
+          exact ⟨fun _ => hlow.1, fun _ => hlow.2.2.1, fun _ => hlow.2.2.2, fun _ => hg1,
+            fun h => by simp at h⟩
         | none =>
           obtain ⟨b, hstk, hbb⟩ := hu.2.2.1 rfl
           have hx := exitErr_fields x vm1 b R1 hstk
           have hxr := exitErr_regs x vm1 b R1 hstk hbb
-          have hgR1 : GeAbove r0 s0.vm.stack R1 :=
-            GeAbove_suffix r0 _ _ _ (by rw [hstk]; exact List.suffix_cons b R1) hg1
+          have hgR1 : GeAbove B s0.vm.stack R1 :=
+            GeAbove_suffix B _ _ _ (by rw [hstk]; exact List.suffix_cons b R1) hg1
+          have hbok : FrameOk B b := by
+            have : vm1.stack = ([b] ++ X2) ++ s0.vm.stack := by rw [hstk, hX2]; rfl
+            exact (hg1 _ this).1 b (by simp)
           have hl1 : Y1 ≠ [] → Y1.getLast? = some (.loop x0) := by
             intro hne; rw [← getLast_cons_ne (Cont.loop x) Y1 hne]; exact hl (by simp)
-          -- register bound after the caller's epilogue
-          have hregs1 : Y1 ≠ [] → r0 ≤ (exitErr x vm1).regs := by
+          have hregs1 : Y1 ≠ [] → B.r0 ≤ (exitErr x vm1).regs := by
             intro hne
-            have htop := topGe r0 Y1 R1 _ hp (hasLoop_of_getLast Y1 x0 (hl1 hne)) hgR1
-            rw [hxr]
+            have htop := topGe B Y1 R1 _ hp (hasLoop_of_getLast Y1 x0 (hl1 hne)) hgR1
+            rw [hxr.1]
             cases x with
             | truncate rr => simp only []; have := hlow.1; omega
             | propagate => exact hlow.1
+          have hq1 : B.ql ≤ (exitErr x vm1).seq := by
+            rw [hxr.2.1]; exact Nat.le_min.mpr ⟨hlow.2.2.1, hbok.2.1⟩
+          have ht1 : B.tl ≤ (exitErr x vm1).str := by
+            rw [hxr.2.2]; exact Nat.le_min.mpr ⟨hlow.2.2.2, hbok.2.2.1⟩
           have hp1 : peelAll Y1 (exitErr x vm1).stack = some s0.vm.stack := by rw [hx.1]; exact hp
           have hb1 : (exitErr x vm1).base = topBase (exitErr x vm1).stack := by rw [hx.2.1, hx.1]
-          have hg2 : GeAbove r0 s0.vm.stack (exitErr x vm1).stack := by rw [hx.1]; exact hgR1
+          have hg2 : GeAbove B s0.vm.stack (exitErr x vm1).stack := by rw [hx.1]; exact hgR1
+          -- the exit state when this loop is the bracket's own
+          have hdone : Y1 = [] → DoneR (.loop x0) B (exitErr x vm1) := by
+            intro hnil
+            subst hnil
+            have hxe : x = x0 := by
+              have := hl (by simp)
+              simpa using this
+            subst hxe
+            have hR : R1 = s0.vm.stack := by simpa [peelAll] using hp
+            rw [hR] at hstk
+            exact doneR_of_exit B x vm1 b _ hstk hbb hg1 hlow.1 hlow.2.2.1 hlow.2.2.2
           rw [List.cons_append] at hY' ⊢
           cases raiseGo_loop_none x (Y1 ++ s0.conts) c vm vm1 (by rw [hune, hres]) with
           | inl h =>
-            -- re-raised in the loop below (which is in `Y1`: the caller `s0` is not a loop)
             rw [h] at hY' ⊢
             cases Y1 with
             | nil =>
-              -- impossible: `s0.conts` does not start with a loop, so nothing is raised there;
-              -- `raiseGo` is then the identity and the state is the exit state
               rw [List.nil_append, raiseGo_host s0 hs0] at hY' ⊢
               have : Y' = [] := by
                 have : ([] : List Cont) ++ s0.conts = Y' ++ s0.conts := by simpa using hY'
                 exact (List.append_cancel_right this).symm
               subst this
-              refine ⟨fun h => absurd rfl h, fun h => absurd rfl h, fun _ => ?_⟩
-              have hxe : x = x0 := by
-                have := hl (by simp)
-                simpa using this
-              subst hxe
-              cases x with
-              | truncate rr =>
-                simp only [DoneR]
-                rw [hxr, hx.2.1]
-                simp only []
-                have := hlow.1
-                omega
-              | propagate => simp [DoneR]
+              exact ⟨fun h => absurd rfl h, fun h => absurd rfl h, fun h => absurd rfl h,
+                fun h => absurd rfl h, fun _ => hdone rfl⟩
             | cons y ys =>
-              exact ih true (exitErr x vm1) hp1 hb1 hl1 (by simp) (hregs1 (by simp)) hg2 Y' hY'
+              exact ih true (exitErr x vm1) hp1 hb1 hl1 (by simp) (hregs1 (by simp)) hq1 ht1 hg2
+                Y' hY'
           | inr h =>
             rw [h] at hY' ⊢
             have : Y' = Y1 := by
               have : Y1 ++ s0.conts = Y' ++ s0.conts := by simpa using hY'
               exact (List.append_cancel_right this).symm
             subst this
-            refine ⟨fun hne => hregs1 hne, fun _ => hg2, fun hnil => ?_⟩
-            subst hnil
-            have hxe : x = x0 := by
-              have := hl (by simp)
-              simpa using this
-            subst hxe
-            cases x with
-            | truncate rr =>
-              simp only [DoneR]
-              rw [hxr, hx.2.1]
-              simp only []
-              have := hlow.1
-              omega
-            | propagate => simp [DoneR]
+            exact ⟨fun hne => hregs1 hne, fun _ => hq1, fun _ => ht1, fun _ => hg2, hdone⟩
 
-
-/-! ### every event keeps the lower bound -/
+/-! ### every event keeps the bounds -/
 
 theorem ne_of_conts (s0 st' : St) (Y' : List Cont) (h' : st'.conts = Y' ++ s0.conts)
     (hlen : s0.conts.length < st'.conts.length) : Y' ≠ [] := by
   intro hn; subst hn; simp at h'; rw [h'] at hlen; omega
 
-theorem low_mk (r0 : Nat) (e : Cont) (S : List Frame) (st' : St) (Y' : List Cont) (hne : Y' ≠ [])
-    (hr' : r0 ≤ st'.vm.regs) (hg' : GeAbove r0 S st'.vm.stack) : Low r0 e S st' Y' :=
-  ⟨fun _ => hr', fun _ => hg', fun h => absurd h hne⟩
+theorem low_mk (B : Bnd) (e : Cont) (S : List Frame) (st' : St) (Y' : List Cont) (hne : Y' ≠ [])
+    (hr' : B.r0 ≤ st'.vm.regs) (hq' : B.ql ≤ st'.vm.seq) (ht' : B.tl ≤ st'.vm.str)
+    (hg' : GeAbove B S st'.vm.stack) : Low B e S st' Y' :=
+  ⟨fun _ => hr', fun _ => hq', fun _ => ht', fun _ => hg', fun h => absurd h hne⟩
 
 /-- facts available inside the bracket -/
-structure Inside (s0 : St) (x0 : Exit) (r0 : Nat) (st : St) (Y : List Cont) : Prop where
+structure Inside (s0 : St) (x0 : Exit) (B : Bnd) (st : St) (Y : List Cont) : Prop where
   inv : Inv s0 (.loop x0) st Y
   ne : Y ≠ []
-  regs : r0 ≤ st.vm.regs
-  ge : GeAbove r0 s0.vm.stack st.vm.stack
-  base : r0 ≤ st.vm.base
-  split : ∃ X, st.vm.stack = X ++ s0.vm.stack
+  regs : B.r0 ≤ st.vm.regs
+  seq : B.ql ≤ st.vm.seq
+  str : B.tl ≤ st.vm.str
+  ge : GeAbove B s0.vm.stack st.vm.stack
+  base : B.r0 ≤ st.vm.base
+  split : ∃ X, st.vm.stack = X ++ s0.vm.stack ∧ X ≠ []
 
-theorem inside_of (s0 : St) (x0 : Exit) (r0 : Nat) (st : St) (Y : List Cont)
-    (h : Inv s0 (.loop x0) st Y) (hl : Low r0 (.loop x0) s0.vm.stack st Y) (hY : Y ≠ []) :
-    Inside s0 x0 r0 st Y := by
-  obtain ⟨X, hX, _⟩ := peelAll_split Y st.vm.stack _ h.peel
-  refine ⟨h, hY, hl.regsIn hY, hl.ge hY, ?_, ⟨X, hX⟩⟩
+theorem inside_of (s0 : St) (x0 : Exit) (B : Bnd) (st : St) (Y : List Cont)
+    (h : Inv s0 (.loop x0) st Y) (hl : Low B (.loop x0) s0.vm.stack st Y) (hY : Y ≠ []) :
+    Inside s0 x0 B st Y := by
+  obtain ⟨X, hX, hne⟩ := peelAll_split Y st.vm.stack _ h.peel
+  have hloop := hasLoop_of_getLast Y x0 (h.lastc hY)
+  refine ⟨h, hY, hl.regsIn hY, hl.seqIn hY, hl.strIn hY, hl.ge hY, ?_, ⟨X, hX, hne hloop⟩⟩
   rw [h.base]
-  exact topGe r0 Y _ _ h.peel (hasLoop_of_getLast Y x0 (h.lastc hY)) (hl.ge hY)
+  exact topGe B Y _ _ h.peel hloop (hl.ge hY)
 
-theorem raise_low_of (s0 : St) (x0 : Exit) (hs0 : inLoop s0 = false) (r0 : Nat) (st : St)
-    (Y : List Cont) (hi : Inside s0 x0 r0 st Y) (c : Bool) (vm : VM)
-    (h1 : vm.stack = st.vm.stack) (h2 : vm.base = st.vm.base) (h3 : r0 ≤ vm.regs)
+theorem raise_low_of (s0 : St) (x0 : Exit) (hs0 : inLoop s0 = false) (B : Bnd) (st : St)
+    (Y : List Cont) (hi : Inside s0 x0 B st Y) (c : Bool) (vm : VM)
+    (h1 : vm.stack = st.vm.stack) (h2 : vm.base = st.vm.base) (h3 : B.r0 ≤ vm.regs)
+    (h4 : vm.seq = st.vm.seq) (h5 : vm.str = st.vm.str)
     (Y' : List Cont) (hY' : (raiseGo st.conts c vm).conts = Y' ++ s0.conts) :
-    Low r0 (.loop x0) s0.vm.stack (raiseGo st.conts c vm) Y' := by
+    Low B (.loop x0) s0.vm.stack (raiseGo st.conts c vm) Y' := by
   rw [hi.inv.conts] at hY' ⊢
-  exact raiseGo_low s0 x0 hs0 r0 Y c vm (by rw [h1]; exact hi.inv.peel)
-    (by rw [h1, h2]; exact hi.inv.base) hi.inv.lastc hi.ne h3 (by rw [h1]; exact hi.ge) Y' hY'
+  exact raiseGo_low s0 x0 hs0 B Y c vm (by rw [h1]; exact hi.inv.peel)
+    (by rw [h1, h2]; exact hi.inv.base) hi.inv.lastc hi.ne h3 (by rw [h4]; exact hi.seq)
+    (by rw [h5]; exact hi.str) (by rw [h1]; exact hi.ge) Y' hY'
 
-theorem enterWith_low (s0 : St) (x0 : Exit) (hs0 : inLoop s0 = false) (r0 : Nat) (st : St)
-    (Y : List Cont) (hi : Inside s0 x0 r0 st Y) (t : Bool) (pre args : Nat) (c : Callee)
+/-- a frame pushed inside the bracket is `FrameOk` -/
+theorem pushed_ok (B : Bnd) (base fb seq str : Nat) (barrier : Bool) (hb : B.r0 ≤ base)
+    (hq : B.ql ≤ seq) (ht : B.tl ≤ str) :
+    FrameOk B { base := base + fb, barrier := barrier, seq0 := seq, str0 := str } :=
+  ⟨by simp; omega, hq, ht, fun c hc => by simp at hc⟩
+
+theorem enterWith_low (s0 : St) (x0 : Exit) (hs0 : inLoop s0 = false) (B : Bnd) (st : St)
+    (Y : List Cont) (hi : Inside s0 x0 B st Y) (t : Bool) (pre args : Nat) (c : Callee)
     (Y' : List Cont) (h' : Inv s0 (.loop x0) (enterWith t pre args c st) Y') :
-    Low r0 (.loop x0) s0.vm.stack (enterWith t pre args c st) Y' := by
+    Low B (.loop x0) s0.vm.stack (enterWith t pre args c st) Y' := by
   have hr := hi.regs
   have hb := hi.base
-  obtain ⟨X, hX⟩ := hi.split
+  obtain ⟨X, hX, hXne⟩ := hi.split
   have hlen : s0.conts.length < st.conts.length := by
     rw [hi.inv.conts]; have := List.length_pos_iff.mpr hi.ne; simp; omega
   cases c with
   | koto a =>
     apply low_mk _ _ _ _ _ (ne_of_conts s0 _ Y' h'.conts (by simp [enterWith]; omega))
     · simp [enterWith, callKoto, pushFrame]; omega
+    · simpa [enterWith, callKoto, pushFrame] using hi.seq
+    · simpa [enterWith, callKoto, pushFrame] using hi.str
     · simp only [enterWith, callKoto, pushFrame]
-      exact GeAbove_cons r0 _ _ _ X hX (by simp; omega) hi.ge
+      exact GeAbove_cons B _ _ _ X hX (pushed_ok B _ _ _ _ _ hb hi.seq hi.str)
+        (fun hn => absurd hn hXne) hi.ge
   | native =>
     apply low_mk _ _ _ _ _ (ne_of_conts s0 _ Y' h'.conts (by simp [enterWith]; omega))
     · simp [enterWith]; omega
+    · simpa [enterWith] using hi.seq
+    · simpa [enterWith] using hi.str
     · simpa [enterWith] using hi.ge
   | fail =>
     have hc' := h'.conts
     simp only [enterWith] at hc' ⊢
     cases t with
     | true =>
-      exact raise_low_of s0 x0 hs0 r0 st Y hi true _ (by simp [truncate]) (by simp [truncate])
-        (by simp [truncate]; omega) Y' hc'
+      exact raise_low_of s0 x0 hs0 B st Y hi true _ (by simp [truncate]) (by simp [truncate])
+        (by simp [truncate]; omega) (by simp [truncate]) (by simp [truncate]) Y' hc'
     | false =>
-      exact raise_low_of s0 x0 hs0 r0 st Y hi true _ (by simp) (by simp) (by simp; omega) Y' hc'
+      exact raise_low_of s0 x0 hs0 B st Y hi true _ (by simp) (by simp) (by simp; omega)
+        (by simp) (by simp) Y' hc'
 
-theorem enterDirect_low (s0 : St) (x0 : Exit) (hs0 : inLoop s0 = false) (r0 : Nat) (st : St)
-    (Y : List Cont) (hi : Inside s0 x0 r0 st Y) (pre : Nat) (ok : Bool)
+theorem enterDirect_low (s0 : St) (x0 : Exit) (hs0 : inLoop s0 = false) (B : Bnd) (st : St)
+    (Y : List Cont) (hi : Inside s0 x0 B st Y) (pre : Nat) (ok : Bool)
     (Y' : List Cont) (h' : Inv s0 (.loop x0) (enterDirect pre ok st) Y') :
-    Low r0 (.loop x0) s0.vm.stack (enterDirect pre ok st) Y' := by
+    Low B (.loop x0) s0.vm.stack (enterDirect pre ok st) Y' := by
   have hr := hi.regs
   have hb := hi.base
   have hlen : s0.conts.length < st.conts.length := by
@@ -371,40 +471,52 @@ theorem enterDirect_low (s0 : St) (x0 : Exit) (hs0 : inLoop s0 = false) (r0 : Na
   | true =>
     apply low_mk _ _ _ _ _ (ne_of_conts s0 _ Y' h'.conts (by simpa [enterDirect] using hlen))
     · simp [enterDirect, truncate]; omega
+    · simpa [enterDirect, truncate] using hi.seq
+    · simpa [enterDirect, truncate] using hi.str
     · simpa [enterDirect, truncate] using hi.ge
   | false =>
     have hc' := h'.conts
     simp only [enterDirect] at hc' ⊢
-    exact raise_low_of s0 x0 hs0 r0 st Y hi true _ (by simp [truncate]) (by simp [truncate])
-      (by simp [truncate]; omega) Y' hc'
+    exact raise_low_of s0 x0 hs0 B st Y hi true _ (by simp [truncate]) (by simp [truncate])
+      (by simp [truncate]; omega) (by simp [truncate]) (by simp [truncate]) Y' hc'
 
-theorem nested_low (s0 : St) (x0 : Exit) (hs0 : inLoop s0 = false) (r0 : Nat) (st : St)
-    (Y : List Cont) (hi : Inside s0 x0 r0 st Y) (args a : Nat)
+theorem nested_low (s0 : St) (x0 : Exit) (hs0 : inLoop s0 = false) (B : Bnd) (st : St)
+    (Y : List Cont) (hi : Inside s0 x0 B st Y) (args a : Nat)
     (Y' : List Cont) (h' : Inv s0 (.loop x0) (nested args a st) Y') :
-    Low r0 (.loop x0) s0.vm.stack (nested args a st) Y' := by
+    Low B (.loop x0) s0.vm.stack (nested args a st) Y' := by
   have hr := hi.regs
   have hb := hi.base
-  obtain ⟨X, hX⟩ := hi.split
+  obtain ⟨X, hX, hXne⟩ := hi.split
   have hlen : s0.conts.length < st.conts.length := by
     rw [hi.inv.conts]; have := List.length_pos_iff.mpr hi.ne; simp; omega
   by_cases hfb : st.vm.regs - st.vm.base > 255
   · have hc' := h'.conts
     simp only [nested, hfb, if_true, raise] at hc' ⊢
-    exact raise_low_of s0 x0 hs0 r0 st Y hi true _ rfl rfl hr Y' hc'
+    exact raise_low_of s0 x0 hs0 B st Y hi true _ rfl rfl hr rfl rfl Y' hc'
   · apply low_mk _ _ _ _ _ (ne_of_conts s0 _ Y' h'.conts (by simp [nested, hfb]; omega))
     · simp [nested, hfb, callKoto, pushFrame]; omega
+    · simpa [nested, hfb, callKoto, pushFrame] using hi.seq
+    · simpa [nested, hfb, callKoto, pushFrame] using hi.str
     · simp only [nested, hfb, if_false, callKoto, pushFrame]
-      exact GeAbove_cons r0 _ _ _ X hX (by simp; omega) hi.ge
+      exact GeAbove_cons B _ _ _ X hX (pushed_ok B _ _ _ _ _ hb hi.seq hi.str)
+        (fun hn => absurd hn hXne) hi.ge
 
+/-- the event does not pop a builder at or below the claimed lower bound -/
+def SafeEv (B : Bnd) (ev : Ev) (st : St) : Prop :=
+  (ev = .seqEnd → st.vm.seq ≠ 0 → B.ql < st.vm.seq) ∧
+  (ev = .strEnd → st.vm.str ≠ 0 → B.tl < st.vm.str)
 
-theorem step_low_loop (s0 : St) (x0 : Exit) (hs0 : inLoop s0 = false) (r0 : Nat) (st : St)
-    (x : Exit) (Y1 : List Cont) (hi : Inside s0 x0 r0 st (.loop x :: Y1)) (ev : Ev)
+theorem step_low_loop (s0 : St) (x0 : Exit) (hs0 : inLoop s0 = false) (B : Bnd) (st : St)
+    (x : Exit) (Y1 : List Cont) (hi : Inside s0 x0 B st (.loop x :: Y1)) (ev : Ev)
+    (hsafe : SafeEv B ev st)
     (Y' : List Cont) (h' : Inv s0 (.loop x0) (step ev st) Y') :
-    Low r0 (.loop x0) s0.vm.stack (step ev st) Y' := by
+    Low B (.loop x0) s0.vm.stack (step ev st) Y' := by
   have h := hi.inv
   have hr := hi.regs
   have hb := hi.base
-  obtain ⟨X, hX⟩ := hi.split
+  have hq := hi.seq
+  have ht := hi.str
+  obtain ⟨X, hX, hXne⟩ := hi.split
   have hconts : st.conts = .loop x :: (Y1 ++ s0.conts) := by rw [h.conts]; rfl
   have hin : inLoop st = true := by simp [inLoop, hconts]
   have hlen : s0.conts.length < st.conts.length := by rw [hconts]; simp; omega
@@ -420,97 +532,154 @@ theorem step_low_loop (s0 : St) (x0 : Exit) (hs0 : inLoop s0 = false) (r0 : Nat)
   have hbase : st.vm.base = f.base := by rw [h.base, hstk]; rfl
   have hge := hi.ge
   rw [hstk] at hge
+  have hfok : FrameOk B f := by
+    cases X with
+    | nil => exact absurd rfl hXne
+    | cons y ys =>
+      have hy : f = y := by
+        have : f :: rest = y :: (ys ++ s0.vm.stack) := by rw [← hstk, hX]; rfl
+        exact (List.cons.inj this).1
+      have : f :: rest = (y :: ys) ++ s0.vm.stack := by rw [← hstk, hX]
+      rw [hy]; exact (hge _ this).1 y (by simp)
   cases ev with
-  | enter pre args c => exact enterWith_low s0 x0 hs0 r0 st _ hi true pre args c Y' h'
-  | enterOp pre args c => exact enterWith_low s0 x0 hs0 r0 st _ hi true pre args c Y' h'
-  | enterDirect pre ok => exact enterDirect_low s0 x0 hs0 r0 st _ hi pre ok Y' h'
-  | nested args a => exact nested_low s0 x0 hs0 r0 st _ hi args a Y' h'
+  | enter pre args c => exact enterWith_low s0 x0 hs0 B st _ hi true pre args c Y' h'
+  | enterOp pre args c => exact enterWith_low s0 x0 hs0 B st _ hi true pre args c Y' h'
+  | enterDirect pre ok => exact enterDirect_low s0 x0 hs0 B st _ hi pre ok Y' h'
+  | nested args a => exact nested_low s0 x0 hs0 B st _ hi args a Y' h'
   | newFrame n =>
     apply low_mk _ _ _ _ _ (ne_of_conts s0 _ Y' h'.conts (by simpa [step, hin] using hlen))
     · simp [step, hin, modTop, hstk]; omega
+    · simpa [step, hin, modTop, hstk] using hq
+    · simpa [step, hin, modTop, hstk] using ht
     · simp only [step, hin, if_true, modTop, hstk]
-      exact GeAbove_modTop r0 _ rest f _ rfl hge
+      exact GeAbove_modTop B _ rest f _ (fun hk => ⟨hk.1, hk.2.1, hk.2.2.1, hk.2.2.2⟩) rfl rfl hge
   | tryStart r ip =>
     apply low_mk _ _ _ _ _ (ne_of_conts s0 _ Y' h'.conts (by simpa [step, hin] using hlen))
     · simpa [step, hin, modTop, hstk] using hr
+    · simpa [step, hin, modTop, hstk] using hq
+    · simpa [step, hin, modTop, hstk] using ht
     · simp only [step, hin, if_true, modTop, hstk]
-      exact GeAbove_modTop r0 _ rest f _ rfl hge
+      refine GeAbove_modTop B _ rest f _ (fun hk => ⟨hk.1, hk.2.1, hk.2.2.1, ?_⟩) rfl rfl hge
+      intro c hc
+      cases List.mem_cons.mp hc with
+      | inl h1 => rw [h1]; exact ⟨hq, ht⟩
+      | inr h1 => exact hk.2.2.2 c h1
   | tryEnd =>
     apply low_mk _ _ _ _ _ (ne_of_conts s0 _ Y' h'.conts (by simpa [step, hin] using hlen))
     · simpa [step, hin, modTop, hstk] using hr
+    · simpa [step, hin, modTop, hstk] using hq
+    · simpa [step, hin, modTop, hstk] using ht
     · simp only [step, hin, if_true, modTop, hstk]
-      exact GeAbove_modTop r0 _ rest f _ rfl hge
+      refine GeAbove_modTop B _ rest f _ (fun hk => ⟨hk.1, hk.2.1, hk.2.2.1, ?_⟩) rfl rfl hge
+      intro c hc
+      exact hk.2.2.2 c (List.mem_of_mem_tail hc)
   | call fb a =>
     apply low_mk _ _ _ _ _ (ne_of_conts s0 _ Y' h'.conts (by simpa [step, hin] using hlen))
     · simp [step, hin, callKoto, pushFrame]; omega
+    · simpa [step, hin, callKoto, pushFrame] using hq
+    · simpa [step, hin, callKoto, pushFrame] using ht
     · simp only [step, hin, if_true, callKoto, pushFrame]
-      exact GeAbove_cons r0 _ _ _ X hX (by simp; omega) hi.ge
+      exact GeAbove_cons B _ _ _ X hX (pushed_ok B _ _ _ _ _ hb hq ht)
+        (fun hn => absurd hn hXne) hi.ge
   | callNative fb =>
     apply low_mk _ _ _ _ _ (ne_of_conts s0 _ Y' h'.conts (by simp [step, hin]; omega))
     · simpa [step, hin] using hr
+    · simpa [step, hin] using hq
+    · simpa [step, hin] using ht
     · simpa [step, hin] using hi.ge
   | seqStart =>
     apply low_mk _ _ _ _ _ (ne_of_conts s0 _ Y' h'.conts (by simpa [step, hin] using hlen))
     · simpa [step, hin] using hr
+    · simp [step, hin]; omega
+    · simpa [step, hin] using ht
     · simpa [step, hin] using hi.ge
   | strStart =>
     apply low_mk _ _ _ _ _ (ne_of_conts s0 _ Y' h'.conts (by simpa [step, hin] using hlen))
     · simpa [step, hin] using hr
+    · simpa [step, hin] using hq
+    · simp [step, hin]; omega
     · simpa [step, hin] using hi.ge
   | exportVal k =>
     apply low_mk _ _ _ _ _ (ne_of_conts s0 _ Y' h'.conts (by simpa [step, hin] using hlen))
     · simpa [step, hin] using hr
+    · simpa [step, hin] using hq
+    · simpa [step, hin] using ht
     · simpa [step, hin] using hi.ge
   | seqEnd =>
     by_cases hz : st.vm.seq = 0
     · have hc' := h'.conts
       simp only [step, hin, if_true, hz, raise] at hc' ⊢
-      exact raise_low_of s0 x0 hs0 r0 st _ hi true _ rfl rfl hr Y' hc'
-    · apply low_mk _ _ _ _ _ (ne_of_conts s0 _ Y' h'.conts (by simpa [step, hin, hz] using hlen))
+      exact raise_low_of s0 x0 hs0 B st _ hi true _ rfl rfl hr rfl rfl Y' hc'
+    · have hs1 := hsafe.1 rfl hz
+      apply low_mk _ _ _ _ _ (ne_of_conts s0 _ Y' h'.conts (by simpa [step, hin, hz] using hlen))
       · simpa [step, hin, hz] using hr
+      · simp [step, hin, hz]; omega
+      · simpa [step, hin, hz] using ht
       · simpa [step, hin, hz] using hi.ge
   | strEnd =>
     by_cases hz : st.vm.str = 0
     · have hc' := h'.conts
       simp only [step, hin, if_true, hz, raise] at hc' ⊢
-      exact raise_low_of s0 x0 hs0 r0 st _ hi true _ rfl rfl hr Y' hc'
-    · apply low_mk _ _ _ _ _ (ne_of_conts s0 _ Y' h'.conts (by simpa [step, hin, hz] using hlen))
+      exact raise_low_of s0 x0 hs0 B st _ hi true _ rfl rfl hr rfl rfl Y' hc'
+    · have hs1 := hsafe.2 rfl hz
+      apply low_mk _ _ _ _ _ (ne_of_conts s0 _ Y' h'.conts (by simpa [step, hin, hz] using hlen))
       · simpa [step, hin, hz] using hr
+      · simpa [step, hin, hz] using hq
+      · simp [step, hin, hz]; omega
       · simpa [step, hin, hz] using hi.ge
   | raise c =>
     have hc' := h'.conts
     simp only [step, hin, if_true, raise] at hc' ⊢
-    exact raise_low_of s0 x0 hs0 r0 st _ hi c _ rfl rfl hr Y' hc'
+    exact raise_low_of s0 x0 hs0 B st _ hi c _ rfl rfl hr rfl rfl Y' hc'
   | importBegin m =>
     by_cases hm : m ∈ st.vm.placeholders
     · have hc' := h'.conts
       simp only [step, hin, if_true, hm, raise] at hc' ⊢
-      exact raise_low_of s0 x0 hs0 r0 st _ hi true _ rfl rfl hr Y' hc'
+      exact raise_low_of s0 x0 hs0 B st _ hi true _ rfl rfl hr rfl rfl Y' hc'
     · by_cases hcd : m ∈ st.vm.cached
       · apply low_mk _ _ _ _ _ (ne_of_conts s0 _ Y' h'.conts (by simpa [step, hin, hm, hcd] using hlen))
         · simpa [step, hin, hm, hcd] using hr
+        · simpa [step, hin, hm, hcd] using hq
+        · simpa [step, hin, hm, hcd] using ht
         · simpa [step, hin, hm, hcd] using hi.ge
       · apply low_mk _ _ _ _ _ (ne_of_conts s0 _ Y' h'.conts (by simp [step, hin, hm, hcd]; omega))
         · simpa [step, hin, hm, hcd] using hr
+        · simpa [step, hin, hm, hcd] using hq
+        · simpa [step, hin, hm, hcd] using ht
         · simpa [step, hin, hm, hcd] using hi.ge
   | nativeRet ok =>
     apply low_mk _ _ _ _ _ (ne_of_conts s0 _ Y' h'.conts (by simpa [step, hin] using hlen))
     · simpa [step, hin] using hr
+    · simpa [step, hin] using hq
+    · simpa [step, hin] using ht
     · simpa [step, hin] using hi.ge
   | importEnd ok =>
     apply low_mk _ _ _ _ _ (ne_of_conts s0 _ Y' h'.conts (by simpa [step, hin] using hlen))
     · simpa [step, hin] using hr
+    · simpa [step, hin] using hq
+    · simpa [step, hin] using ht
     · simpa [step, hin] using hi.ge
   | ret =>
     have hp := popTo_fields f rest st.vm
-    have hsuf : GeAbove r0 s0.vm.stack rest :=
-      GeAbove_suffix r0 _ _ _ (List.suffix_cons f rest) hge
+    have hsuf : GeAbove B s0.vm.stack rest :=
+      GeAbove_suffix B _ _ _ (List.suffix_cons f rest) hge
+    have hq' : B.ql ≤ (popTo f rest st.vm).1.seq := by
+      rw [hp.2.2.2.2.1]; exact Nat.le_min.mpr ⟨hq, hfok.2.1⟩
+    have ht' : B.tl ≤ (popTo f rest st.vm).1.str := by
+      rw [hp.2.2.2.2.2.1]; exact Nat.le_min.mpr ⟨ht, hfok.2.2.1⟩
     by_cases hbar : f.barrier = true
     · have hs := popTo_stop_of_barrier f rest st.vm hbar
       have hlastx : Y1 = [] → x = x0 := by
         intro hn; have := h.lastc (by simp); subst hn; simpa using this
       have hl1 : Y1 ≠ [] → Y1.getLast? = some (.loop x0) := by
         intro hne; rw [← getLast_cons_ne (Cont.loop x) Y1 hne]; exact h.lastc (by simp)
+      have hR : rest = R1 := by simpa [hstk, dropLoop, hbar] using hdl
+      -- the frame `f` carries the entry's counts when it is the bracket's own barrier frame
+      have hfc : Y1 = [] → f.seq0 = B.q ∧ f.str0 = B.t := by
+        intro hn
+        subst hn
+        have hRS : R1 = s0.vm.stack := by simpa [peelAll] using hpeel
+        exact (hge [f] (by rw [hR, hRS]; rfl)).2 f (by simp)
       cases x with
       | truncate rr =>
         have hstep : step .ret st = ⟨truncate rr (popTo f rest st.vm).1, Y1 ++ s0.conts⟩ := by
@@ -528,18 +697,27 @@ theorem step_low_loop (s0 : St) (x0 : Exit) (hs0 : inLoop s0 = false) (r0 : Nat)
         have hregs : (truncate rr (popTo f rest st.vm).1).regs
             = min st.vm.regs (topBase rest + rr) := by
           simp [truncate, hs.2, hp.2.1]
-        refine ⟨fun hne => ?_, fun _ => ?_, fun hn => ?_⟩
+        have hseq : (truncate rr (popTo f rest st.vm).1).seq = min st.vm.seq f.seq0 := by
+          simp [truncate, hp.2.2.2.2.1]
+        have hstr : (truncate rr (popTo f rest st.vm).1).str = min st.vm.str f.str0 := by
+          simp [truncate, hp.2.2.2.2.2.1]
+        refine ⟨fun hne => ?_, fun _ => ?_, fun _ => ?_, fun _ => ?_, fun hn => ?_⟩
         · have hpe := h'.peel
           simp only [] at hpe
           rw [(truncate_fields rr _).1, hp.1] at hpe
-          have := topGe r0 Y' rest _ hpe (hasLoop_of_getLast Y' x0 (hl1 hne)) hsuf
+          have := topGe B Y' rest _ hpe (hasLoop_of_getLast Y' x0 (hl1 hne)) hsuf
           simp only []; rw [hregs]; omega
+        · simp only []; rw [hseq]; exact Nat.le_min.mpr ⟨hq, hfok.2.1⟩
+        · simp only []; rw [hstr]; exact Nat.le_min.mpr ⟨ht, hfok.2.2.1⟩
         · simp only []; rw [(truncate_fields rr _).1, hp.1]; exact hsuf
         · have hx := hlastx hn
+          have hc := hfc hn
           rw [← hx]
           simp only [DoneR]
-          rw [hregs, (truncate_fields rr _).2.1, hp.2.1]
-          omega
+          rw [hregs, hseq, hstr, (truncate_fields rr _).2.1, hp.2.1, hc.1, hc.2]
+          refine ⟨by omega, Nat.min_le_right _ _, Nat.min_le_right _ _, ?_, ?_⟩
+          · exact Nat.le_min.mpr ⟨Nat.le_trans (Nat.min_le_left _ _) hq, Nat.min_le_right _ _⟩
+          · exact Nat.le_min.mpr ⟨Nat.le_trans (Nat.min_le_left _ _) ht, Nat.min_le_right _ _⟩
       | propagate =>
         have hstep : step .ret st = ⟨(popTo f rest st.vm).1, Y1 ++ s0.conts⟩ := by
           simp only [step, hin, if_true, hstk, hconts]
@@ -553,7 +731,7 @@ theorem step_low_loop (s0 : St) (x0 : Exit) (hs0 : inLoop s0 = false) (r0 : Nat)
           simp only [] at this
           exact (List.append_cancel_right this).symm
         subst hYeq
-        refine ⟨fun _ => ?_, fun _ => ?_, fun hn => ?_⟩
+        refine ⟨fun _ => ?_, fun _ => hq', fun _ => ht', fun _ => ?_, fun hn => ?_⟩
         · simp only []; rw [hs.2]; exact hr
         · simp only []; rw [hp.1]; exact hsuf
         · have hx := hlastx hn
@@ -575,10 +753,12 @@ theorem step_low_loop (s0 : St) (x0 : Exit) (hs0 : inLoop s0 = false) (r0 : Nat)
         have hpe := h'.peel
         simp only [] at hpe
         rw [hp.1] at hpe
-        have htop := topGe r0 Y' (r :: rs) _ hpe
+        have htop := topGe B Y' (r :: rs) _ hpe
           (hasLoop_of_getLast Y' x0 (h'.lastc hne')) hsuf
         apply low_mk _ _ _ _ _ hne'
         · simp only [popTo, hbar']; simp [topBase] at htop ⊢; omega
+        · exact hq'
+        · exact ht'
         · simp only []; rw [hp.1]; exact hsuf
 
 
@@ -588,14 +768,20 @@ theorem tail_ne_of_last_loop (c1 : Cont) (Y1 : List Cont) (x0 : Exit) (hc1 : isL
   have : c1 = .loop x0 := by simpa using hl
   rw [this] at hc1; simp [isLoop] at hc1
 
-theorem step_low_native (s0 : St) (x0 : Exit) (hs0 : inLoop s0 = false) (r0 : Nat) (st : St)
+theorem nativeOk_builders (fb : Nat) (vm : VM) :
+    (nativeOk fb vm).seq = vm.seq ∧ (nativeOk fb vm).str = vm.str := by
+  cases hs : vm.stack <;> simp [nativeOk, hs, truncate]
+
+theorem step_low_native (s0 : St) (x0 : Exit) (hs0 : inLoop s0 = false) (B : Bnd) (st : St)
     (fb : Nat) (host : Option (Nat × Bool)) (Y1 : List Cont)
-    (hi : Inside s0 x0 r0 st (.native fb host :: Y1)) (ev : Ev)
+    (hi : Inside s0 x0 B st (.native fb host :: Y1)) (ev : Ev)
     (Y' : List Cont) (h' : Inv s0 (.loop x0) (step ev st) Y') :
-    Low r0 (.loop x0) s0.vm.stack (step ev st) Y' := by
+    Low B (.loop x0) s0.vm.stack (step ev st) Y' := by
   have h := hi.inv
   have hr := hi.regs
   have hb := hi.base
+  have hq := hi.seq
+  have ht := hi.str
   have hconts : st.conts = .native fb host :: (Y1 ++ s0.conts) := by rw [h.conts]; rfl
   have hin : inLoop st = false := by simp [inLoop, hconts]
   have hlen : s0.conts.length < st.conts.length := by rw [hconts]; simp; omega
@@ -604,13 +790,14 @@ theorem step_low_native (s0 : St) (x0 : Exit) (hs0 : inLoop s0 = false) (r0 : Na
     rw [← getLast_cons_ne (Cont.native fb host) Y1 hY1]; exact h.lastc (by simp)
   have hpeel : peelAll Y1 st.vm.stack = some s0.vm.stack := by simpa [peelAll] using h.peel
   cases ev with
-  | enter pre args c => exact enterWith_low s0 x0 hs0 r0 st _ hi true pre args c Y' h'
-  | enterOp pre args c => exact enterWith_low s0 x0 hs0 r0 st _ hi true pre args c Y' h'
-  | enterDirect pre ok => exact enterDirect_low s0 x0 hs0 r0 st _ hi pre ok Y' h'
-  | nested args a => exact nested_low s0 x0 hs0 r0 st _ hi args a Y' h'
+  | enter pre args c => exact enterWith_low s0 x0 hs0 B st _ hi true pre args c Y' h'
+  | enterOp pre args c => exact enterWith_low s0 x0 hs0 B st _ hi true pre args c Y' h'
+  | enterDirect pre ok => exact enterDirect_low s0 x0 hs0 B st _ hi pre ok Y' h'
+  | nested args a => exact nested_low s0 x0 hs0 B st _ hi args a Y' h'
   | nativeRet ok =>
     have hn := nativeOk_fields fb st.vm
-    have hnregs : r0 ≤ (nativeOk fb st.vm).regs := by
+    have hnb := nativeOk_builders fb st.vm
+    have hnregs : B.r0 ≤ (nativeOk fb st.vm).regs := by
       cases hs : st.vm.stack with
       | nil => simpa [nativeOk, hs] using hr
       | cons f rest => simp [nativeOk, hs, truncate]; omega
@@ -626,6 +813,8 @@ theorem step_low_native (s0 : St) (x0 : Exit) (hs0 : inLoop s0 = false) (r0 : Na
         subst hYeq
         apply low_mk _ _ _ _ _ hY1
         · simp [truncate, hn.2.1]; omega
+        · simp [truncate, hnb.1]; exact hq
+        · simp [truncate, hnb.2]; exact ht
         · simp only []; rw [(truncate_fields rr.1 _).1, hn.1]; exact hi.ge
       | none =>
         have hstep : step (.nativeRet true) st = ⟨nativeOk fb st.vm, Y1 ++ s0.conts⟩ := by
@@ -636,20 +825,24 @@ theorem step_low_native (s0 : St) (x0 : Exit) (hs0 : inLoop s0 = false) (r0 : Na
         subst hYeq
         apply low_mk _ _ _ _ _ hY1
         · exact hnregs
+        · simp only []; rw [hnb.1]; exact hq
+        · simp only []; rw [hnb.2]; exact ht
         · simp only []; rw [hn.1]; exact hi.ge
     | false =>
-      have hraise : ∀ vm : VM, vm.stack = st.vm.stack → vm.base = st.vm.base → r0 ≤ vm.regs →
+      have hraise : ∀ vm : VM, vm.stack = st.vm.stack → vm.base = st.vm.base → B.r0 ≤ vm.regs →
+          vm.seq = st.vm.seq → vm.str = st.vm.str →
           ∀ Y', (raiseGo (Y1 ++ s0.conts) true vm).conts = Y' ++ s0.conts →
-          Low r0 (.loop x0) s0.vm.stack (raiseGo (Y1 ++ s0.conts) true vm) Y' := by
-        intro vm h1 h2 h3 Y'' hY''
-        exact raiseGo_low s0 x0 hs0 r0 Y1 true vm (by rw [h1]; exact hpeel)
-          (by rw [h1, h2]; exact h.base) (fun _ => hl1) hY1 h3 (by rw [h1]; exact hi.ge) Y'' hY''
+          Low B (.loop x0) s0.vm.stack (raiseGo (Y1 ++ s0.conts) true vm) Y' := by
+        intro vm h1 h2 h3 h4 h5 Y'' hY''
+        exact raiseGo_low s0 x0 hs0 B Y1 true vm (by rw [h1]; exact hpeel)
+          (by rw [h1, h2]; exact h.base) (fun _ => hl1) hY1 h3 (by rw [h4]; exact hq)
+          (by rw [h5]; exact ht) (by rw [h1]; exact hi.ge) Y'' hY''
       cases host with
       | none =>
         have hstep : step (.nativeRet false) st = raiseGo (Y1 ++ s0.conts) true st.vm := by
           simp [step, hin, hconts]
         rw [hstep] at h' ⊢
-        exact hraise st.vm rfl rfl hr Y' h'.conts
+        exact hraise st.vm rfl rfl hr rfl rfl Y' h'.conts
       | some rr =>
         have hstep : step (.nativeRet false) st =
             raiseGo (Y1 ++ s0.conts) true (if rr.2 then truncate rr.1 st.vm else st.vm) := by
@@ -658,76 +851,106 @@ theorem step_low_native (s0 : St) (x0 : Exit) (hs0 : inLoop s0 = false) (r0 : Na
         cases hr2 : rr.2 with
         | false =>
           simp only [hr2, Bool.false_eq_true, if_false] at h' ⊢
-          exact hraise st.vm rfl rfl hr Y' h'.conts
+          exact hraise st.vm rfl rfl hr rfl rfl Y' h'.conts
         | true =>
           simp only [hr2, if_true] at h' ⊢
           exact hraise (truncate rr.1 st.vm) (by simp [truncate]) (by simp [truncate])
-            (by simp [truncate]; omega) Y' h'.conts
+            (by simp [truncate]; omega) (by simp [truncate]) (by simp [truncate]) Y' h'.conts
   | newFrame n =>
     apply low_mk _ _ _ _ _ (ne_of_conts s0 _ Y' h'.conts (by simpa [step, hin] using hlen))
     · simpa [step, hin] using hr
+    · simpa [step, hin] using hq
+    · simpa [step, hin] using ht
     · simpa [step, hin] using hi.ge
   | tryStart r ip =>
     apply low_mk _ _ _ _ _ (ne_of_conts s0 _ Y' h'.conts (by simpa [step, hin] using hlen))
     · simpa [step, hin] using hr
+    · simpa [step, hin] using hq
+    · simpa [step, hin] using ht
     · simpa [step, hin] using hi.ge
   | tryEnd =>
     apply low_mk _ _ _ _ _ (ne_of_conts s0 _ Y' h'.conts (by simpa [step, hin] using hlen))
     · simpa [step, hin] using hr
+    · simpa [step, hin] using hq
+    · simpa [step, hin] using ht
     · simpa [step, hin] using hi.ge
   | call fb' a =>
     apply low_mk _ _ _ _ _ (ne_of_conts s0 _ Y' h'.conts (by simpa [step, hin] using hlen))
     · simpa [step, hin] using hr
+    · simpa [step, hin] using hq
+    · simpa [step, hin] using ht
     · simpa [step, hin] using hi.ge
   | callNative fb' =>
     apply low_mk _ _ _ _ _ (ne_of_conts s0 _ Y' h'.conts (by simpa [step, hin] using hlen))
     · simpa [step, hin] using hr
+    · simpa [step, hin] using hq
+    · simpa [step, hin] using ht
     · simpa [step, hin] using hi.ge
   | ret =>
     apply low_mk _ _ _ _ _ (ne_of_conts s0 _ Y' h'.conts (by simpa [step, hin] using hlen))
     · simpa [step, hin] using hr
+    · simpa [step, hin] using hq
+    · simpa [step, hin] using ht
     · simpa [step, hin] using hi.ge
   | seqStart =>
     apply low_mk _ _ _ _ _ (ne_of_conts s0 _ Y' h'.conts (by simpa [step, hin] using hlen))
     · simpa [step, hin] using hr
+    · simpa [step, hin] using hq
+    · simpa [step, hin] using ht
     · simpa [step, hin] using hi.ge
   | seqEnd =>
     apply low_mk _ _ _ _ _ (ne_of_conts s0 _ Y' h'.conts (by simpa [step, hin] using hlen))
     · simpa [step, hin] using hr
+    · simpa [step, hin] using hq
+    · simpa [step, hin] using ht
     · simpa [step, hin] using hi.ge
   | strStart =>
     apply low_mk _ _ _ _ _ (ne_of_conts s0 _ Y' h'.conts (by simpa [step, hin] using hlen))
     · simpa [step, hin] using hr
+    · simpa [step, hin] using hq
+    · simpa [step, hin] using ht
     · simpa [step, hin] using hi.ge
   | strEnd =>
     apply low_mk _ _ _ _ _ (ne_of_conts s0 _ Y' h'.conts (by simpa [step, hin] using hlen))
     · simpa [step, hin] using hr
+    · simpa [step, hin] using hq
+    · simpa [step, hin] using ht
     · simpa [step, hin] using hi.ge
   | exportVal k =>
     apply low_mk _ _ _ _ _ (ne_of_conts s0 _ Y' h'.conts (by simpa [step, hin] using hlen))
     · simpa [step, hin] using hr
+    · simpa [step, hin] using hq
+    · simpa [step, hin] using ht
     · simpa [step, hin] using hi.ge
   | raise c =>
     apply low_mk _ _ _ _ _ (ne_of_conts s0 _ Y' h'.conts (by simpa [step, hin] using hlen))
     · simpa [step, hin] using hr
+    · simpa [step, hin] using hq
+    · simpa [step, hin] using ht
     · simpa [step, hin] using hi.ge
   | importBegin m =>
     apply low_mk _ _ _ _ _ (ne_of_conts s0 _ Y' h'.conts (by simpa [step, hin] using hlen))
     · simpa [step, hin] using hr
+    · simpa [step, hin] using hq
+    · simpa [step, hin] using ht
     · simpa [step, hin] using hi.ge
   | importEnd ok =>
     apply low_mk _ _ _ _ _ (ne_of_conts s0 _ Y' h'.conts (by simpa [step, hin, hconts] using hlen))
     · simpa [step, hin, hconts] using hr
+    · simpa [step, hin, hconts] using hq
+    · simpa [step, hin, hconts] using ht
     · simpa [step, hin, hconts] using hi.ge
 
-theorem step_low_importing (s0 : St) (x0 : Exit) (hs0 : inLoop s0 = false) (r0 : Nat) (st : St)
+theorem step_low_importing (s0 : St) (x0 : Exit) (hs0 : inLoop s0 = false) (B : Bnd) (st : St)
     (m : Nat) (saved : List Nat) (Y1 : List Cont)
-    (hi : Inside s0 x0 r0 st (.importing m saved :: Y1)) (ev : Ev)
+    (hi : Inside s0 x0 B st (.importing m saved :: Y1)) (ev : Ev)
     (Y' : List Cont) (h' : Inv s0 (.loop x0) (step ev st) Y') :
-    Low r0 (.loop x0) s0.vm.stack (step ev st) Y' := by
+    Low B (.loop x0) s0.vm.stack (step ev st) Y' := by
   have h := hi.inv
   have hr := hi.regs
   have hb := hi.base
+  have hq := hi.seq
+  have ht := hi.str
   have hconts : st.conts = .importing m saved :: (Y1 ++ s0.conts) := by rw [h.conts]; rfl
   have hin : inLoop st = false := by simp [inLoop, hconts]
   have hlen : s0.conts.length < st.conts.length := by rw [hconts]; simp; omega
@@ -736,10 +959,10 @@ theorem step_low_importing (s0 : St) (x0 : Exit) (hs0 : inLoop s0 = false) (r0 :
     rw [← getLast_cons_ne (Cont.importing m saved) Y1 hY1]; exact h.lastc (by simp)
   have hpeel : peelAll Y1 st.vm.stack = some s0.vm.stack := by simpa [peelAll] using h.peel
   cases ev with
-  | enter pre args c => exact enterWith_low s0 x0 hs0 r0 st _ hi true pre args c Y' h'
-  | enterOp pre args c => exact enterWith_low s0 x0 hs0 r0 st _ hi true pre args c Y' h'
-  | enterDirect pre ok => exact enterDirect_low s0 x0 hs0 r0 st _ hi pre ok Y' h'
-  | nested args a => exact nested_low s0 x0 hs0 r0 st _ hi args a Y' h'
+  | enter pre args c => exact enterWith_low s0 x0 hs0 B st _ hi true pre args c Y' h'
+  | enterOp pre args c => exact enterWith_low s0 x0 hs0 B st _ hi true pre args c Y' h'
+  | enterDirect pre ok => exact enterDirect_low s0 x0 hs0 B st _ hi pre ok Y' h'
+  | nested args a => exact nested_low s0 x0 hs0 B st _ hi args a Y' h'
   | importEnd ok =>
     cases ok with
     | true =>
@@ -752,104 +975,153 @@ theorem step_low_importing (s0 : St) (x0 : Exit) (hs0 : inLoop s0 = false) (r0 :
       have hYeq : Y' = Y1 := by
         have := h'.conts; simp only [] at this; exact (List.append_cancel_right this).symm
       subst hYeq
-      exact low_mk _ _ _ _ _ hY1 hr hi.ge
+      exact low_mk _ _ _ _ _ hY1 hr hq ht hi.ge
     | false =>
       have hstep : step (.importEnd false) st =
           raiseGo (Y1 ++ s0.conts) true { st.vm with
             placeholders := st.vm.placeholders.erase m, exports := saved } := by
         simp [step, hin, hconts]
       rw [hstep] at h' ⊢
-      exact raiseGo_low s0 x0 hs0 r0 Y1 true
+      exact raiseGo_low s0 x0 hs0 B Y1 true
         { st.vm with placeholders := st.vm.placeholders.erase m, exports := saved }
-        hpeel h.base (fun _ => hl1) hY1 hr hi.ge Y' h'.conts
+        hpeel h.base (fun _ => hl1) hY1 hr hq ht hi.ge Y' h'.conts
   | newFrame n =>
     apply low_mk _ _ _ _ _ (ne_of_conts s0 _ Y' h'.conts (by simpa [step, hin] using hlen))
     · simpa [step, hin] using hr
+    · simpa [step, hin] using hq
+    · simpa [step, hin] using ht
     · simpa [step, hin] using hi.ge
   | tryStart r ip =>
     apply low_mk _ _ _ _ _ (ne_of_conts s0 _ Y' h'.conts (by simpa [step, hin] using hlen))
     · simpa [step, hin] using hr
+    · simpa [step, hin] using hq
+    · simpa [step, hin] using ht
     · simpa [step, hin] using hi.ge
   | tryEnd =>
     apply low_mk _ _ _ _ _ (ne_of_conts s0 _ Y' h'.conts (by simpa [step, hin] using hlen))
     · simpa [step, hin] using hr
+    · simpa [step, hin] using hq
+    · simpa [step, hin] using ht
     · simpa [step, hin] using hi.ge
   | call fb' a =>
     apply low_mk _ _ _ _ _ (ne_of_conts s0 _ Y' h'.conts (by simpa [step, hin] using hlen))
     · simpa [step, hin] using hr
+    · simpa [step, hin] using hq
+    · simpa [step, hin] using ht
     · simpa [step, hin] using hi.ge
   | callNative fb' =>
     apply low_mk _ _ _ _ _ (ne_of_conts s0 _ Y' h'.conts (by simpa [step, hin] using hlen))
     · simpa [step, hin] using hr
+    · simpa [step, hin] using hq
+    · simpa [step, hin] using ht
     · simpa [step, hin] using hi.ge
   | ret =>
     apply low_mk _ _ _ _ _ (ne_of_conts s0 _ Y' h'.conts (by simpa [step, hin] using hlen))
     · simpa [step, hin] using hr
+    · simpa [step, hin] using hq
+    · simpa [step, hin] using ht
     · simpa [step, hin] using hi.ge
   | seqStart =>
     apply low_mk _ _ _ _ _ (ne_of_conts s0 _ Y' h'.conts (by simpa [step, hin] using hlen))
     · simpa [step, hin] using hr
+    · simpa [step, hin] using hq
+    · simpa [step, hin] using ht
     · simpa [step, hin] using hi.ge
   | seqEnd =>
     apply low_mk _ _ _ _ _ (ne_of_conts s0 _ Y' h'.conts (by simpa [step, hin] using hlen))
     · simpa [step, hin] using hr
+    · simpa [step, hin] using hq
+    · simpa [step, hin] using ht
     · simpa [step, hin] using hi.ge
   | strStart =>
     apply low_mk _ _ _ _ _ (ne_of_conts s0 _ Y' h'.conts (by simpa [step, hin] using hlen))
     · simpa [step, hin] using hr
+    · simpa [step, hin] using hq
+    · simpa [step, hin] using ht
     · simpa [step, hin] using hi.ge
   | strEnd =>
     apply low_mk _ _ _ _ _ (ne_of_conts s0 _ Y' h'.conts (by simpa [step, hin] using hlen))
     · simpa [step, hin] using hr
+    · simpa [step, hin] using hq
+    · simpa [step, hin] using ht
     · simpa [step, hin] using hi.ge
   | exportVal k =>
     apply low_mk _ _ _ _ _ (ne_of_conts s0 _ Y' h'.conts (by simpa [step, hin] using hlen))
     · simpa [step, hin] using hr
+    · simpa [step, hin] using hq
+    · simpa [step, hin] using ht
     · simpa [step, hin] using hi.ge
   | raise c =>
     apply low_mk _ _ _ _ _ (ne_of_conts s0 _ Y' h'.conts (by simpa [step, hin] using hlen))
     · simpa [step, hin] using hr
+    · simpa [step, hin] using hq
+    · simpa [step, hin] using ht
     · simpa [step, hin] using hi.ge
   | importBegin m' =>
     apply low_mk _ _ _ _ _ (ne_of_conts s0 _ Y' h'.conts (by simpa [step, hin] using hlen))
     · simpa [step, hin] using hr
+    · simpa [step, hin] using hq
+    · simpa [step, hin] using ht
     · simpa [step, hin] using hi.ge
   | nativeRet ok =>
     apply low_mk _ _ _ _ _ (ne_of_conts s0 _ Y' h'.conts (by simpa [step, hin, hconts] using hlen))
     · simpa [step, hin, hconts] using hr
+    · simpa [step, hin, hconts] using hq
+    · simpa [step, hin, hconts] using ht
     · simpa [step, hin, hconts] using hi.ge
 
-/-- Every event keeps the lower bound (given the bracket invariant before and after). -/
-theorem step_low (s0 : St) (x0 : Exit) (hs0 : inLoop s0 = false) (r0 : Nat) (st : St)
-    (Y : List Cont) (h : Inv s0 (.loop x0) st Y) (hl : Low r0 (.loop x0) s0.vm.stack st Y)
-    (hY : Y ≠ []) (ev : Ev) (Y' : List Cont) (h' : Inv s0 (.loop x0) (step ev st) Y') :
-    Low r0 (.loop x0) s0.vm.stack (step ev st) Y' := by
-  have hi := inside_of s0 x0 r0 st Y h hl hY
+/-- Every event keeps the bounds (given the bracket invariant before and after). -/
+theorem step_low (s0 : St) (x0 : Exit) (hs0 : inLoop s0 = false) (B : Bnd) (st : St)
+    (Y : List Cont) (h : Inv s0 (.loop x0) st Y) (hl : Low B (.loop x0) s0.vm.stack st Y)
+    (hY : Y ≠ []) (ev : Ev) (hsafe : SafeEv B ev st)
+    (Y' : List Cont) (h' : Inv s0 (.loop x0) (step ev st) Y') :
+    Low B (.loop x0) s0.vm.stack (step ev st) Y' := by
+  have hi := inside_of s0 x0 B st Y h hl hY
   cases Y with
   | nil => exact absurd rfl hY
   | cons c1 Y1 =>
     cases c1 with
-    | loop x => exact step_low_loop s0 x0 hs0 r0 st x Y1 hi ev Y' h'
-    | native fb host => exact step_low_native s0 x0 hs0 r0 st fb host Y1 hi ev Y' h'
-    | importing m saved => exact step_low_importing s0 x0 hs0 r0 st m saved Y1 hi ev Y' h'
+    | loop x => exact step_low_loop s0 x0 hs0 B st x Y1 hi ev hsafe Y' h'
+    | native fb host => exact step_low_native s0 x0 hs0 B st fb host Y1 hi ev Y' h'
+    | importing m saved => exact step_low_importing s0 x0 hs0 B st m saved Y1 hi ev Y' h'
 
-theorem runUntil_low (s0 : St) (x0 : Exit) (hs0 : inLoop s0 = false) (hc : Consistent s0.vm)
-    (r0 : Nat) : ∀ (evs : List Ev) (st : St) (Y : List Cont), Inv s0 (.loop x0) st Y →
-      Low r0 (.loop x0) s0.vm.stack st Y →
-      ∃ Y', Inv s0 (.loop x0) (runUntil s0.conts.length evs st) Y' ∧
-        Low r0 (.loop x0) s0.vm.stack (runUntil s0.conts.length evs st) Y' := by
+/-- no event of the bracket pops a builder at or below the claimed lower bounds -/
+def SafeUntil (B : Bnd) (d : Nat) : List Ev → St → Prop
+  | [], _ => True
+  | ev :: rest, st =>
+    if st.conts.length ≤ d then True else SafeEv B ev st ∧ SafeUntil B d rest (step ev st)
+
+theorem safeUntil_zero (B : Bnd) (hq : B.ql = 0) (ht : B.tl = 0) (d : Nat) :
+    ∀ (evs : List Ev) (st : St), SafeUntil B d evs st := by
   intro evs
   induction evs with
-  | nil => intro st Y h hl; exact ⟨Y, h, hl⟩
+  | nil => intro st; trivial
   | cons ev rest ih =>
-    intro st Y h hl
+    intro st
+    simp only [SafeUntil]
+    split
+    · trivial
+    · exact ⟨⟨fun _ hz => by rw [hq]; omega, fun _ hz => by rw [ht]; omega⟩, ih _⟩
+
+theorem runUntil_low (s0 : St) (x0 : Exit) (hs0 : inLoop s0 = false) (hc : Consistent s0.vm)
+    (B : Bnd) : ∀ (evs : List Ev) (st : St) (Y : List Cont), Inv s0 (.loop x0) st Y →
+      Low B (.loop x0) s0.vm.stack st Y → SafeUntil B s0.conts.length evs st →
+      ∃ Y', Inv s0 (.loop x0) (runUntil s0.conts.length evs st) Y' ∧
+        Low B (.loop x0) s0.vm.stack (runUntil s0.conts.length evs st) Y' := by
+  intro evs
+  induction evs with
+  | nil => intro st Y h hl _; exact ⟨Y, h, hl⟩
+  | cons ev rest ih =>
+    intro st Y h hl hsafe
     simp only [runUntil]
+    simp only [SafeUntil] at hsafe
     split
     · exact ⟨Y, h, hl⟩
     · rename_i hlen
+      rw [if_neg hlen] at hsafe
       have hY : Y ≠ [] := by
         intro hn; subst hn; apply hlen; rw [h.conts]; simp
       obtain ⟨Y', h'⟩ := step_inv s0 (.loop x0) hs0 hc st Y h hY ev
-      exact ih (step ev st) Y' h' (step_low s0 x0 hs0 r0 st Y h hl hY ev Y' h')
+      exact ih (step ev st) Y' h' (step_low s0 x0 hs0 B st Y h hl hY ev hsafe.1 Y' h') hsafe.2
 
 end KotoVerif.Unwind
